@@ -318,8 +318,14 @@ impl ProjectGenerator {
     /// Add a Rust crate dependency from `import rust::crate_name`
     /// Uses a default version mapping for common crates, otherwise uses latest
     pub fn add_rust_crate(&mut self, crate_name: &str) {
+        let version = Self::known_good_version(crate_name);
+        self.rust_crate_deps.insert(crate_name.to_string(), version);
+    }
+
+    /// The pinned dependency spec for a crate on the known-good list, `None` for any other crate.
+    pub fn known_good_version(crate_name: &str) -> Option<String> {
         // Common crate versions (maintain a mapping of known-good versions)
-        let version = match crate_name {
+        match crate_name {
             "serde" => Some(r#"{ version = "1.0", features = ["derive"] }"#.to_string()),
             "serde_json" => Some(r#""1.0""#.to_string()),
             "tokio" => {
@@ -341,10 +347,9 @@ impl ProjectGenerator {
             "futures" => Some(r#""0.3""#.to_string()),
             "bytes" => Some(r#""1.0""#.to_string()),
             "itertools" => Some(r#""0.12""#.to_string()),
-            // Use latest for unknown crates
+            // Not on the list: callers refuse the import (see rust_interop.md), nothing is pinned for it
             _ => None,
-        };
-        self.rust_crate_deps.insert(crate_name.to_string(), version);
+        }
     }
 
     /// Add a Rust crate with a specific version spec
